@@ -74,6 +74,15 @@ theorem Client.next_unexpected (fresh : Nat) (st : Client D) (m : Msg D)
     (h : st.expects m = false) : Client.next H cookie fresh st m = .close := by
   cases st <;> cases m <;> simp_all [Client.next, Client.expects]
 
+theorem Server.next_violation (fresh : Nat) (st : Server D) (m : Msg D)
+    (h : st.accepts m = false) : Server.next H cookie fresh st m = .close := by
+  cases st <;> cases m <;> try (simp_all [Server.next, Server.accepts, Server.expects]; done)
+  all_goals (rename_i b; cases b <;> simp_all [Server.next, Server.accepts, Server.expects])
+
+theorem Client.next_violation (fresh : Nat) (st : Client D) (m : Msg D)
+    (h : st.accepts m = false) : Client.next H cookie fresh st m = .close := by
+  cases st <;> cases m <;> simp_all [Client.next, Client.accepts, Client.expects]
+
 omit [DecidableEq D] in
 theorem Server.startChallenge_wf (fresh : Nat) (s : Server D) :
     (Server.startChallenge H cookie fresh s).wf H cookie := by
